@@ -2,10 +2,12 @@
 alembic operation objects and of reflected tables, encoders into Coq terms, schema generators.
 
 Abstract schema (JSON-able, mirrors coq/Model/Schema.v):
-  schema = [table];  table = {"name": int, "cols": [[name, fam, [args], nullable, pk, dflt]],
+  schema = [table];  table = {"name": int, "cols": [[name, fam, [args], nullable, pk, dflt, nullable_set]],
                               "cons": [["uq", name, [cols]] | ["ix", name, [cols], unique]], "fks": [[name, [cols], rtable, [rcols], [onupdate, ondelete, deferrable, initially], named]]}
   (named False: the key is declared without a name; `name` is then only a handle)
   dflt = None | ["lit", str] (server_default='...') | ["expr", str] (server_default=text('...'))
+         | ["comp", str, persisted] (Computed(str, persisted=None|True|False): a generated column)
+  nullable_set False: nullable= is not passed (Column._user_defined_nullable stays NULL_UNSPECIFIED); default True
 Names are small integers; in SQL they are spelled t<n> / c<n> / k<n> (constraints, indexes) / f<n> (foreign keys).
 """
 import re
@@ -68,9 +70,14 @@ def fk_named(f):
     return bool(f[5]) if len(f) > 5 else True
 
 
+def col_null_set(c):
+    return bool(c[6]) if len(c) > 6 else True
+
+
 def sa_default(d):
     import sqlalchemy as sa
     if d is None: return None
+    if d[0] == "comp": return sa.Computed(d[1], persisted=d[2])
     return d[1] if d[0] == "lit" else sa.text(d[1])
 
 
@@ -79,6 +86,8 @@ def abs_default(sd):
     import sqlalchemy as sa
     from sqlalchemy.sql.elements import TextClause
     if sd is None or sd is False: return None
+    if isinstance(sd, sa.Computed):
+        return ["comp", str(sd.sqltext.text if hasattr(sd.sqltext, "text") else sd.sqltext), sd.persisted]
     if not isinstance(sd, sa.DefaultClause): raise AssertionError("unexpected server default %r" % (sd,))
     if isinstance(sd.arg, str): return ["lit", sd.arg]
     if isinstance(sd.arg, TextClause): return ["expr", sd.arg.text]
@@ -96,8 +105,14 @@ def build_metadata(schema):
     import sqlalchemy as sa
     md = sa.MetaData()
     for t in schema:
-        args = [sa.Column(cn(n), sa_type(fam, a), nullable=bool(nl), primary_key=bool(pk), server_default=sa_default(d))
-                for n, fam, a, nl, pk, d in t["cols"]]
+        args = []
+        for c in t["cols"]:
+            n, fam, a, nl, pk, d = c[:6]
+            kw = {"nullable": bool(nl)} if col_null_set(c) else {}
+            if d is not None and d[0] == "comp":
+                args.append(sa.Column(cn(n), sa_type(fam, a), sa_default(d), primary_key=bool(pk), **kw))
+            else:
+                args.append(sa.Column(cn(n), sa_type(fam, a), primary_key=bool(pk), server_default=sa_default(d), **kw))
         for k in t["cons"]:
             if k[0] == "uq":
                 args.append(sa.UniqueConstraint(*[cn(c) for c in k[2]], name=kn(k[1])))
@@ -117,9 +132,14 @@ def quiet_logs():
 
 
 # ----------------------------------------------------------------------------- abstraction
+def col_user_nullable(col):
+    from sqlalchemy.sql import schema as sch
+    return col._user_defined_nullable is not sch.NULL_UNSPECIFIED
+
+
 def abs_column(col, dialect):
     return [un(col.name, "c"), abs_type(col.type, dialect)[0], abs_type(col.type, dialect)[1], bool(col.nullable),
-            bool(col.primary_key), abs_default(col.server_default)]
+            bool(col.primary_key), abs_default(col.server_default), col_user_nullable(col)]
 
 
 def abs_reflected(conn):
@@ -326,8 +346,11 @@ ALL_CFGS = [(True, True), (True, False), (False, True), (False, False)]
 
 # ----------------------------------------------------------------------------- Coq encoders
 def q_ty(fam, args): return "(mkTy %d %s)" % (fam, cf.nlist(args))
-def q_dflt(d): return "(%s %s)" % ("DLit" if d[0] == "lit" else "DExpr", cf.string(d[1]))
-def q_col(c): return "(mkCol %d %s %s %s %s)" % (c[0], q_ty(c[1], c[2]), cf.boolean(c[3]), cf.boolean(c[4]), cf.opt(c[5], q_dflt))
+def q_dflt(d):
+    if d[0] == "comp": return "(DComputed %s %s)" % (cf.string(d[1]), cf.opt(d[2], cf.boolean))
+    return "(%s %s)" % ("DLit" if d[0] == "lit" else "DExpr", cf.string(d[1]))
+def q_col(c): return "(mkCol %d %s %s %s %s %s)" % (c[0], q_ty(c[1], c[2]), cf.boolean(c[3]), cf.boolean(c[4]), cf.opt(c[5], q_dflt),
+                                                 cf.boolean(col_null_set(c)))
 def q_fkopts(o):
     return "(mkFkOpts %s %s %s %s)" % (cf.opt(o[0], cf.string), cf.opt(o[1], cf.string), cf.opt(o[2], cf.boolean), cf.opt(o[3], cf.string))
 def q_fk(f): return "(mkFk %d %s %d %s %s %s)" % (f[0], cf.nlist(f[1]), f[2], cf.nlist(f[3]), q_fkopts(fk_opts(f)), cf.boolean(fk_named(f)))
@@ -380,7 +403,7 @@ BAD_DEFAULTS = [["lit", "(a)"], ["lit", ""], ["lit", "it's"], ["lit", "'q'"]]
 
 def near_miss(rnd, d):
     """a default that differs from d only slightly: letter case, a surrounding blank, a trailing character (stays in dflt_ok)"""
-    if d is None: return None
+    if d is None or d[0] == "comp": return None
     kind, txt = d
     inner, pre, post = txt, "", ""
     if kind == "expr" and len(txt) >= 3 and txt[0] == txt[-1] == "'":
@@ -407,7 +430,8 @@ def gen_table(rnd, name, kbase):
     cols = [[0, 0, [], False, True, None]]
     for i in range(ncols):
         fam, args = rnd.choice(TYPE_CATALOGUE)
-        cols.append([i + 1, fam, list(args), rnd.random() < 0.65, False, gen_default(rnd)])
+        nl = rnd.random() < 0.65
+        cols.append([i + 1, fam, list(args), nl, False, gen_default(rnd), not (nl and rnd.random() < 0.2)])   # nullable= sometimes left unset
     t = {"name": name, "cols": cols, "cons": [], "fks": []}
     for j in range(rnd.choice([0, 0, 1, 1, 2, 3])):
         add_cons(rnd, t, kbase + j)
@@ -559,7 +583,10 @@ def mutate(rnd, S, kind=None):
         c = rnd.choice(nonpk)
         if kind == "null":
             c[3] = not c[3]
+            while len(c) < 7: c.append(True)
+            c[6] = True
         elif kind == "default":
+            if c[5] is not None and c[5][0] == "comp": return None, None
             d = near_miss(rnd, c[5]) if (c[5] is not None and rnd.random() < 0.4) else gen_default(rnd, 0.75)
             if d == c[5]: return None, None
             c[5] = d
@@ -610,11 +637,26 @@ def no_dangling(A, B):
     return all(f[2] in bn for t in A if t["name"] in bn for f in t["fks"])
 
 
+def fk_names_ok(A, B):
+    """mirrors Diff.v fk_names_ok: a foreign key name of B that also names a key of the same table in A whose signature B still
+    wants must name that same signature"""
+    ta = {t["name"]: t for t in A}
+    for m in B:
+        c = ta.get(m["name"])
+        if c is None: continue
+        msigs = {_fsig(f) for f in m["fks"]}
+        for mf in m["fks"]:
+            for cf in c["fks"]:
+                if cf[0] == mf[0] and fk_named(mf) and _fsig(cf) in msigs and _fsig(cf) != _fsig(mf):
+                    return False
+    return True
+
+
 def gen_pair(rnd):
     """A and a B that shares most objects with it"""
     while True:
         A, B, desc = _gen_pair(rnd)
-        if no_dangling(A, B):
+        if no_dangling(A, B) and fk_names_ok(A, B):
             return A, B, desc
 
 
@@ -642,6 +684,7 @@ MUT_KINDS = ["add_table", "drop_table", "add_column", "drop_column", "flip_nulla
 def norm_default(d):
     """the documented normalisation of SQLiteImpl.compare_server_default (two re.sub calls), on the default's text"""
     if d is None: return None
+    if d[0] == "comp": return ("computed",)
     t = re.sub(r"^\((.+)\)$", r"\1", d[1])
     return re.sub(r"^\"?'(.+)'\"?$", r"\1", t)
 
@@ -679,6 +722,10 @@ def gen_mutation(rnd, A, kind):
         if not free: return None
         return [kind, t["name"], rnd.choice(free)[0]]
     if kind == "flip_nullable":
+        comp = [c for x in A for c in x["cols"] if c[5] is not None and c[5][0] == "comp"]
+        if comp and rnd.random() < 0.7:         # prefer a generated column when the base has one
+            t = rnd.choice([x for x in A if any(c[5] is not None and c[5][0] == "comp" for c in x["cols"])])
+            return [kind, t["name"], rnd.choice([c for c in t["cols"] if c[5] is not None and c[5][0] == "comp"])[0]]
         if not nonpk: return None
         return [kind, t["name"], rnd.choice(nonpk)[0]]
     if kind == "change_type":
@@ -687,6 +734,7 @@ def gen_mutation(rnd, A, kind):
         fam, args = rnd.choice([x for x in TYPE_CATALOGUE if not types_match(x[0], c[1])])
         return [kind, t["name"], c[0], [fam, list(args)]]
     if kind == "change_default":
+        nonpk = [c for c in nonpk if not (c[5] is not None and c[5][0] == "comp")]      # a generated column cannot be altered
         if not nonpk: return None
         c = rnd.choice(nonpk)
         d = near_miss(rnd, c[5]) if (c[5] is not None and rnd.random() < 0.5) else gen_default(rnd, 0.7)
@@ -746,7 +794,10 @@ def apply_mutation(A, m):
         elif kind == "drop_column": t["cols"] = [c for c in t["cols"] if c[0] != m[2]]
         elif kind == "flip_nullable":
             for c in t["cols"]:
-                if c[0] == m[2]: c[3] = not c[3]
+                if c[0] == m[2]:
+                    c[3] = not c[3]
+                    while len(c) < 7: c.append(True)
+                    c[6] = True            # the changed model states the new nullability explicitly
         elif kind == "change_type":
             for c in t["cols"]:
                 if c[0] == m[2]: c[1], c[2] = m[3][0], list(m[3][1])
@@ -777,6 +828,19 @@ def q_mut(m):
     if k == "drop_cons": return "(MDropCons %d %d)" % (m[1], m[2])
     if k == "change_cons": return "(MChangeCons %d %s)" % (m[1], q_cons(m[2]))
     raise AssertionError(k)
+
+
+COMPUTED = [["comp", "c0 + 1", None], ["comp", "c0 * 2", False], ["comp", "c0 + 1", True], ["comp", "c0 - 3", None]]
+
+
+def add_computed(rnd, S, p=0.5):
+    """give some tables a generated column (outside C06: batch mode cannot rebuild such tables)"""
+    for t in S:
+        if rnd.random() < p:
+            n = max(c[0] for c in t["cols"]) + 1
+            fam = rnd.choice([0, 1, 5])
+            nl = rnd.random() < 0.6
+            t["cols"].append([n, fam, [], nl, False, list(rnd.choice(COMPUTED)), not (nl and rnd.random() < 0.5)])
 
 
 def type_matrix(same_family_too):
